@@ -32,6 +32,22 @@ func checkC12(ck *Check) {
 		fn := a.RunOnce
 		ctx := ck.P.NewCtx(fn)
 		cs := callsTo(fn, a.Scan)
+		loopAt := map[ssa.CallInstruction]ssa.CallInstruction{}
+		if a.GroupStep != nil && a.GroupStep != a.RunOnce {
+			// the per-group body in a helper: its parameters bound to what RunOnce hands it in the loop
+			if via, ok := firstCall(callsTo(a.RunOnce, a.GroupStep)); ok {
+				vargs := make([]*Term, len(via.Common().Args))
+				for i, av := range via.Common().Args {
+					vargs[i] = ctx.Term(av)
+				}
+				ctx = ctx.child(a.GroupStep, via, vargs)
+				ctx.depth = 0
+				cs = callsTo(a.GroupStep, a.Scan)
+				for _, ci := range cs {
+					loopAt[ci] = via
+				}
+			}
+		}
 		for _, ci := range cs {
 			args := ci.Common().Args
 			var nameT, stateT *Term
@@ -51,10 +67,21 @@ func checkC12(ck *Check) {
 				okKey := k.Key() == nameT.Key()
 				okLoop := false
 				// the options value is the range element of c.Opts.NodeGroups
-				l := innermostLoop(fn, ci.Block())
+				at := ssa.CallInstruction(ci)
+				if v, ok := loopAt[ci]; ok {
+					at = v
+				}
+				l := innermostLoop(fn, at.Block())
 				if l != nil && l.IdxPhi != nil {
-					over := ctx.Term(l.Over)
+					over := ck.P.NewCtx(fn).Term(l.Over)
 					okLoop = over.Kind == "field" && over.Name == "NodeGroups"
+					// the options the helper works on are the loop element itself
+					if _, viaHelper := loopAt[ci]; viaHelper && okLoop {
+						okLoop = nameT.Args[0].Kind == "elem" || (nameT.Args[0].Kind == "deref" || nameT.Args[0].Kind == "unop")
+						if el := nameT.Args[0]; el.Kind == "elem" {
+							okLoop = el.Args[0].Key() == over.Key()
+						}
+					}
 				}
 				okv = okMap && okKey && okLoop
 				if !okv {
@@ -126,6 +153,38 @@ func checkC12(ck *Check) {
 					}
 					if !(arg.Kind == "field" && arg.Obj == fCloud) {
 						return false, "the looked-up name is not a cloud_provider_group_name option"
+					}
+					// the option of an options value handed in by value (the per-group step of RunOnce):
+					// judged where the value comes from
+					if bp, isParam := arg.Args[0].Val.(*ssa.Parameter); isParam && arg.Args[0].Kind == "param" && bp.Parent() == fn && depth < 3 && ck.groupTerm(fn) == nil {
+						idx := -1
+						for i, q := range fn.Params {
+							if q == bp {
+								idx = i
+							}
+						}
+						sites := 0
+						for _, cf := range ck.P.callers[fn] {
+							cs := callsTo(cf, fn)
+							if len(cs) == 0 {
+								return false, "the options are a parameter of a function that is also entered dynamically"
+							}
+							cctx := ck.P.NewCtx(cf)
+							for _, c := range cs {
+								sites++
+								if idx < 0 || idx >= len(c.Common().Args) {
+									return false, "the looked-up name is not a cloud_provider_group_name option"
+								}
+								ot := cctx.Term(c.Common().Args[idx])
+								l := innermostLoop(cf, c.Block())
+								if l == nil || l.IdxPhi == nil || ot.Kind != "elem" || ot.Args[0].Key() != cctx.Term(l.Over).Key() {
+									return false, "the options handed in are not the loop element of the configured groups: " + ot.String()
+								}
+							}
+						}
+						if sites > 0 {
+							return true, ""
+						}
 					}
 					base := arg.Args[0]
 					if g := ck.groupTerm(fn); g != nil && fn != a.RunOnce && fn != a.NewController {
@@ -523,6 +582,10 @@ func (ck *Check) loopContainment(rule string) {
 	a := ck.A
 	fn := a.RunOnce
 	ctx := ck.P.NewCtx(fn)
+	if a.GroupStep != nil && a.GroupStep != a.RunOnce {
+		ck.loopContainmentSplit(rule)
+		return
+	}
 	cs := callsTo(fn, a.Scan)
 	if len(cs) != 1 {
 		ck.fail(rule, funcID(fn)+"/scan-call", "", funcID(fn), "one scan call in the group loop", fmt.Sprint(len(cs)), "")
@@ -565,6 +628,84 @@ func (ck *Check) loopContainment(rule string) {
 			okv = false
 		}
 		ck.cond(okv, rule, key, ck.P.instrPos(e[0].Instrs[len(e[0].Instrs)-1]), funcID(fn), "inside the group loop RunOnce stops only when the cloud group is missing or on *NodeNotInNodeGroup; any other error goes on to the next group", pc.String(), "a failure in one group stops the processing of later groups: "+why)
+	}
+}
+
+// loopContainmentSplit: the per-group body lives in a helper h that RunOnce calls in its group loop.
+// In RunOnce the loop is left (by a return) only when h reported an error; h reports an error only
+// when the cloud group is missing or the scan's error is *NodeNotInNodeGroup.
+func (ck *Check) loopContainmentSplit(rule string) {
+	a := ck.A
+	fn, h := a.RunOnce, a.GroupStep
+	ctx := ck.P.NewCtx(fn)
+	via, ok := firstCall(callsTo(fn, h))
+	if !ok {
+		ck.fail(rule, funcID(fn)+"/scan-call", "", funcID(fn), "one call of the per-group step in the group loop", "", "")
+		return
+	}
+	loop := innermostLoop(fn, via.Block())
+	if loop == nil {
+		ck.fail(rule, funcID(fn)+"/group-loop", "", funcID(fn), "the scan is called in a loop over the configured groups", "", "")
+		return
+	}
+	vt := ctx.Term(via)
+	herr := vt
+	if tup, isTup := via.Type().(*types.Tuple); isTup {
+		herr = &Term{Kind: "extract", Name: fmt.Sprint(tup.Len() - 1), Args: []*Term{vt}}
+	}
+	failed := Not(cmpFormula(token.EQL, herr, &Term{Kind: "const", Name: "nil"}))
+	for _, e := range loop.Exits {
+		if loop.exhaustionExit(e[0]) {
+			continue
+		}
+		key := fmt.Sprintf("%s/loop-exit@block%d", funcID(fn), e[0].Index)
+		pc := And(ctx.BlockPC(e[0]), ctx.edgeCond(e[0], e[1]))
+		_, isRet := e[1].Instrs[len(e[1].Instrs)-1].(*ssa.Return)
+		okv, why := false, "the loop over the groups is left by something other than a return"
+		if isRet || len(e[1].Succs) == 0 {
+			var err error
+			okv, why, err = Entails(pc, failed)
+			if err != nil {
+				okv, why = false, err.Error()
+			}
+		}
+		ck.cond(okv, rule, key, ck.P.instrPos(e[0].Instrs[len(e[0].Instrs)-1]), funcID(fn), "inside the group loop RunOnce stops only when the per-group step reports an error", pc.String(), "a failure in one group stops the processing of later groups: "+why)
+	}
+	// the per-group step reports an error only for the two documented conditions
+	hctx := ck.P.NewCtx(h)
+	cs := callsTo(h, a.Scan)
+	if len(cs) != 1 {
+		ck.fail(rule, funcID(h)+"/scan-call", "", funcID(h), "one scan call in the per-group step", fmt.Sprint(len(cs)), "")
+		return
+	}
+	scanT := hctx.Term(cs[0].(*ssa.Call))
+	scanErr := &Term{Kind: "extract", Name: "1", Args: []*Term{scanT}}
+	for _, b := range h.Blocks {
+		r, isRet := b.Instrs[len(b.Instrs)-1].(*ssa.Return)
+		if !isRet || len(r.Results) == 0 {
+			continue
+		}
+		if k, isK := r.Results[len(r.Results)-1].(*ssa.Const); isK && k.IsNil() {
+			continue
+		}
+		pc := hctx.BlockPC(b)
+		allowed := FFalse
+		for _, at := range pc.Atoms() {
+			if at.Kind == "extract" && at.Name == "1" && at.Args[0].Kind == "invoke" && at.Args[0].Name == "GetNodeGroup" {
+				allowed = Or(allowed, Not(Atom(at)))
+			}
+			if at.Kind == "extract" && at.Name == "1" && at.Args[0].Kind == "typeassert" && strings.HasSuffix(at.Args[0].Name, "NodeNotInNodeGroup") && at.Args[0].Args[0].Key() == scanErr.Key() {
+				allowed = Or(allowed, Atom(at))
+			}
+		}
+		okv, why, err := Entails(pc, allowed)
+		if err != nil {
+			okv, why = false, err.Error()
+		}
+		ck.cond(okv, rule, fmt.Sprintf("%s/return@block%d", funcID(h), b.Index), ck.P.instrPos(r), funcID(h), "the per-group step reports an error only when the cloud group is missing or on *NodeNotInNodeGroup; any other error goes on to the next group", pc.String(), "a failure in one group stops the processing of later groups: "+why)
+	}
+	if len(loopsOf(h)) != 0 {
+		ck.fail(rule, funcID(h)+"/loops", "", funcID(h), "the per-group step handles one group (no loop of its own around the scan)", "", "")
 	}
 }
 
